@@ -60,6 +60,10 @@ func Identical(x, y types.Type) bool {
 }
 
 func typeIdentical(x, y types.Type, p *ifacePair) bool {
+	// An alias denotes the type it stands for, on either side of the comparison.
+	x = types.Unalias(x)
+	y = types.Unalias(y)
+
 	if x == y {
 		return true
 	}
@@ -233,10 +237,6 @@ func typeIdentical(x, y types.Type, p *ifacePair) bool {
 
 	case *typeparams.TypeParam:
 		// nothing to do (x and y being equal is caught in the very beginning of this function)
-
-	case *types.Alias:
-		// an alias type is identical if the type it's an alias of is identical to it.
-		return typeIdentical(types.Unalias(x), y, p)
 
 	case nil:
 		// avoid a crash in case of nil type
